@@ -29,8 +29,12 @@ structure DState where
   st : State
   pst : Ptr.PState
 
+/-- the text of key number `k` in the String-key build of the harness (5 characters + terminator) -/
+def keyText (k : Nat) : List Nat := [97 + k % 3, 48 + k / 3 % 4, 98, 48 + k / 12 % 10, 99, 0]
+
 def hashFn (mode : Nat) (k : Nat) : Nat :=
-  if mode = 0 then k
+  if mode = 5 then (hashString (keyText k) 5).getD 0     -- `hash(const String&)` of the key text
+  else if mode = 0 then k
   else if mode = 1 then 7
   else if mode = 2 then k % 2
   else if mode = 3 then 2 ^ 64 - 1 - k      -- (usize)~k: huge hash codes
